@@ -1712,6 +1712,8 @@ def search(ctx):
     c17_refs.round3_search(ctx, targets)
     from harness.props import c17_simlevel
     c17_simlevel.round4_search(ctx)
+    from harness.props import c17_timepar
+    c17_timepar.round5_search(ctx, targets)
     # (a) applied or rejected: sampled over class x parameter x kind x route (exhaustive when something broke / thorough)
     pool = []
     for cls, probe in targets:
@@ -1815,6 +1817,9 @@ def replay(ctx, data):
     from harness.props import c17_simlevel
     r4 = c17_simlevel.replay(ctx, data)
     if r4 is not None: return r4
+    from harness.props import c17_timepar
+    r5 = c17_timepar.replay(ctx, data)
+    if r5 is not None: return r5
     k = data.get('kind')
     if k == 'apply':
         return bool(oracle_apply(resolve_cls(data['cls'], data.get('probe')), data['par'], data['nk'], data['tok'], data['route'], data.get('probe', False)))
